@@ -7,6 +7,7 @@ package wl
 import (
 	"fmt"
 	"math/rand"
+	"sync"
 
 	"github.com/syndtr/goleveldb/leveldb"
 	"github.com/syndtr/goleveldb/leveldb/opt"
@@ -35,6 +36,7 @@ type Workload struct {
 	O       *opt.Options
 	Batches []*Batch
 	Tr      *vt.Tracer
+	mu      sync.Mutex
 }
 
 func B2i(b bool) int {
@@ -65,6 +67,42 @@ func (w *Workload) GenOps(n int, big bool) ([][2]int, [][]byte) {
 		vals = append(vals, v)
 	}
 	return ops, vals
+}
+
+// ConcurrentPhase runs n writer goroutines, each owning the keys congruent to its index
+// (so batches of different writers commute and the fold in completion order is exact),
+// with write merging on: sync and non-sync writers are merged into common groups.
+func (w *Workload) ConcurrentPhase(n, each int, seed int64) {
+	var wg sync.WaitGroup
+	for i := 0; i < n; i++ {
+		wg.Add(1)
+		go func(i int) {
+			defer wg.Done()
+			rng := rand.New(rand.NewSource(seed*977 + int64(i)))
+			var mine []int
+			for k := 0; k < w.U.N(); k++ {
+				if k%n == i {
+					mine = append(mine, k)
+				}
+			}
+			if len(mine) == 0 {
+				return
+			}
+			for j := 0; j < each; j++ {
+				k := mine[rng.Intn(len(mine))]
+				sync := rng.Intn(3) == 0
+				w.mu.Lock()
+				val, id := w.VG.FreshLen(8 + rng.Intn(60))
+				w.mu.Unlock()
+				b := &Batch{Ops: [][2]int{{k, id}}, Vals: [][]byte{val}, Sync: sync, Kind: "cput", BeginOp: w.Stor.NOps()}
+				err := w.DB.Put(w.U.Key(k), val, &opt.WriteOptions{Sync: sync})
+				w.mu.Lock()
+				w.Record(b, err)
+				w.mu.Unlock()
+			}
+		}(i)
+	}
+	wg.Wait()
 }
 
 func (w *Workload) Record(b *Batch, err error) {
@@ -109,11 +147,18 @@ func (w *Workload) Step() error {
 			}
 		}
 		kind := "write"
-		if big {
+		// DB.Write routes a batch through a transaction iff its internal length exceeds the write buffer
+		ilen := 0
+		for i, o := range ops {
+			ilen += len(w.U.Keys[o[0]]) + len(vals[i]) + 8
+		}
+		wbuf := w.O.WriteBuffer
+		if wbuf <= 0 {
+			wbuf = 4 << 20
+		}
+		if ilen > wbuf && !w.O.DisableLargeBatchTransaction {
 			kind = "bigwrite"
-			if !w.O.DisableLargeBatchTransaction {
-				sync = true // the transaction path is durable on return
-			}
+			sync = true // the transaction path is durable on return
 		}
 		b := &Batch{Ops: ops, Vals: vals, Sync: sync, Kind: kind, BeginOp: w.Stor.NOps()}
 		err := w.DB.Write(lb, wo)
